@@ -4,6 +4,8 @@ CONSTANTS Cbs = {1,2,3}
   SlotSize = 2
   Gap = 100
   Sigs = {"i","d"}
+  OnErrs = {TRUE, FALSE}
+  MaxDepth = 1
   Cap = 2
   Variant = "faithful"
 VIEW View
@@ -13,5 +15,7 @@ INVARIANT DistinctLive
 INVARIANT FreeDisjointLive
 INVARIANT FreeNoDup
 INVARIANT BoundOwn
+INVARIANT FramesOwn
+INVARIANT OwnLive
 INVARIANT InsideMapping
 CHECK_DEADLOCK FALSE
